@@ -8,6 +8,7 @@ import (
 	"encoding/json"
 	"fmt"
 	"os"
+	"sort"
 	"strconv"
 	"strings"
 	"sync"
@@ -103,6 +104,7 @@ func fixtures(files ...string) (out []string) {
 			walk(v)
 		}
 	}
+	sort.Strings(out) // map iteration order must not pick the fixtures
 	return
 }
 
@@ -209,7 +211,7 @@ func main() {
 		}
 		b64 := b64
 		p, err := psetv2.NewPsetFromBase64(b64)
-		if err != nil {
+		if err != nil || len(p.Inputs) == 0 {
 			continue
 		}
 		// tap fields as sub-slices with spare capacity, as a caller may well hold them
